@@ -109,6 +109,8 @@ type Type struct {
 	Flatten      bool    `json:"flatten,omitempty"`
 	// array / map
 	Items *Type      `json:"items,omitempty"`
+	// SingleForm: ext.singleForm of an array or map ("" = not declared)
+	SingleForm string `json:"single_form,omitempty"`
 	Rules *Rules     `json:"rules,omitempty"`
 	List  *ListRules `json:"list,omitempty"`
 	// any
